@@ -155,7 +155,7 @@ def model_sig(m, tags):
     return int(m.dim), int(tag), np.array(par, dtype=float), np.array(np.atleast_1d(m.anis), dtype=float)
 
 
-def periodic_check(srf, pts, rng_axes, qs):
+def periodic_check(srf, pts, rng_axes, qs, period=None):
     """max |f(x) - f(x + q * period_i * main_axis_i)| / (1e-9 * AMP) over the axes and multiples; uses the CURRENT
     model of the field and the CURRENT period of the generator.  Returns (worst ratio, detail)"""
     model = srf.model
@@ -168,7 +168,7 @@ def periodic_check(srf, pts, rng_axes, qs):
         return 0.0, None
     axes = np.asarray(model.main_axes(), dtype=float)      # ROW i is the i-th main axis (matrix_rotate(dim, angles).T)
     worst, det = 0.0, None
-    period = np.asarray(gen.period, dtype=float)
+    period = np.asarray(gen.period if period is None else period, dtype=float)
     for ax in rng_axes:
         for q in qs:
             shift = q * period[ax] * axes[ax, :]
@@ -410,12 +410,80 @@ def do_api_op(gen, op):
     return r
 
 
+KEEP_OPS = ("period_keep", "mode_no_keep", "caller_edit")
+
+
+def gen_keep_op(rng, dim):
+    """aliasing of the caller's INPUT: period / mode_no passed as ndarrays which the caller keeps and later edits in
+    place.  The generator must hold a copy: nothing may change until the next assignment through the API."""
+    k = KEEP_OPS[int(rng.integers(len(KEEP_OPS)))]
+    via = str(rng.choice(["setter", "update"]))
+    if k == "period_keep":
+        n = int(rng.choice([dim, dim, dim, dim + 1, 1]))
+        dt = str(rng.choice(["float64", "float64", "int64"]))
+        vals = np.exp(rng.uniform(-1, 4, n)) if dt == "float64" else rng.integers(1, 60, n).astype(float)
+        return dict(op=k, period=hexl(vals), dtype=dt, via=via)
+    if k == "mode_no_keep":
+        n = int(rng.choice([dim, dim, dim + 1, 1]))
+        return dict(op=k, mode_no=[int(2 * rng.integers(1, 8)) for _ in range(n)], dtype=str(rng.choice(["int64", "float64"])), via=via)
+    return dict(op=k, which=int(rng.integers(0, 8)), how=str(rng.choice(["scale", "set"])), c=float(rng.choice([0.5, 1.5, 2.0, 0.3])),
+                idx=int(rng.integers(0, 4)), value=float(rng.choice([17.0, 3.0, 7.0, 41.0])))
+
+
+def caller_edit(kept, op):
+    """the caller modifies, in place, an array it passed earlier (no call into gstools)"""
+    if not kept:
+        return
+    arr = kept[op["which"] % len(kept)]
+    if op["how"] == "scale":
+        if arr.dtype.kind == "f":
+            arr *= op["c"]
+        else:
+            arr *= 3
+    else:
+        arr[op["idx"] % len(arr)] = op["value"] if arr.dtype.kind == "f" else int(op["value"])
+
+
+def do_keep_op(gen, op, kept):
+    """returns the values ASSIGNED through the API (copies taken before the call), like do_api_op"""
+    k = op["op"]
+    r = dict(edit_period=None, edit_mode_no=None, period=None, mode_no=None)
+    if k == "caller_edit":
+        caller_edit(kept, op)
+    elif k == "period_keep":
+        arr = np.array(unhex(op["period"]), dtype=op["dtype"])
+        r["period"] = np.array(arr, dtype=float)
+        kept.append(arr)
+        if op["via"] == "setter":
+            gen.period = arr
+        else:
+            gen.update(period=arr)
+    elif k == "mode_no_keep":
+        arr = np.array(op["mode_no"], dtype=op["dtype"])
+        r["mode_no"] = [int(x) for x in op["mode_no"]]
+        kept.append(arr)
+        if op["via"] == "setter":
+            gen.mode_no = arr
+        else:
+            gen.update(mode_no=arr)
+    return r
+
+
 def gen_history(rng, dim, n_ops, classes):
     """operations on one Fourier generator; model changes keep the class (in-place setters or a new object)"""
     ops = []
     for _ in range(n_ops):
-        if rng.random() < 0.4:
+        u0 = rng.random()
+        if u0 < 0.3:
             ops.append(gen_api_op(rng, dim))
+            continue
+        if u0 < 0.5:
+            o = gen_keep_op(rng, dim)
+            ops.append(o)
+            if o["op"] == "caller_edit" and rng.random() < 0.7:
+                # the edit of the caller's array shows at the next model change, if the generator kept a view
+                ops.append(dict(op="len_scale", len_scale=float(np.exp(rng.uniform(-0.5, 2)))) if (dim == 1 or rng.random() < 0.5)
+                           else dict(op="anis", anis=[float(x) for x in np.exp(rng.uniform(-1.2, 1.2, dim - 1))]))
             continue
         u = rng.random()
         if u < 0.18:
@@ -460,12 +528,16 @@ def gen_history(rng, dim, n_ops, classes):
     return ops
 
 
-def apply_op(gen, model, op):
+def apply_op(gen, model, op, kept=None):
     """run one operation on the implementation; returns (model object now owned by the caller, update arguments
     as the model sees them, exception name or None)"""
     args = dict(model=None, seed=False, period=None, mode_no=None, edit_period=None, edit_mode_no=None)
     exc = None
     k = op["op"]
+    if k in KEEP_OPS:
+        args.update(do_keep_op(gen, op, kept if kept is not None else []))
+        args["noop"] = (k == "caller_edit")
+        return model, args, None
     if k in API_OPS:
         # expected values first (from copies), so that they are known even when the setter raises
         old_p = np.array(gen.period, dtype=float)
@@ -565,7 +637,14 @@ def corr_histories(ctx, drv, rng, tie_bad):
         ops = gen_history(rng, dim, int(rng.integers(3, 10)), classes)
         case = dict(kind="history", model=cfg, period=hexl(period), mode_no=mode_no, ops=ops)
         model = make_model(cfg)
-        gen = Fourier(model, period=period, mode_no=mode_no, seed=int(rng.integers(1000)))
+        kept = []
+        if rng.random() < 0.5:
+            # constructor arguments as ndarrays that the caller keeps (and edits later)
+            kept += [np.array(fill(period, dim), dtype=float), np.array(fill(mode_no, dim), dtype=np.int64)]
+            case["ctor_keep"] = True
+            gen = Fourier(model, period=kept[0], mode_no=kept[1], seed=int(rng.integers(1000)))
+        else:
+            gen = Fourier(model, period=period, mode_no=mode_no, seed=int(rng.integers(1000)))
         drv.call("f_reset")
         md, mtag, mpar, manis = model_sig(model, tags)
         st = drv.call("f_update", True, ("n", md), ("z", mtag), mpar, manis, True, True, np.asarray(period, dtype=float),
@@ -575,8 +654,13 @@ def corr_histories(ctx, drv, rng, tie_bad):
         for step_no, op in enumerate(ops):
             if diffs:
                 break
-            model, args, exc = apply_op(gen, model, op)
+            model, args, exc = apply_op(gen, model, op, kept)
             n_ops_total += 1
+            if args.get("noop"):
+                # the caller edited an array it passed earlier: the model state does not move, neither may the generator
+                ctx.count(("hist", dim, op["op"], None), hist=dict(op="update:" + op["op"], dim=dim, outcome="ok"))
+                diffs = state_matches(drv.call("f_state"), gen, tags)
+                continue
             ctx.count(("hist", dim, op["op"], exc), hist=dict(op="update:" + op["op"], dim=dim, outcome=exc or "ok"))
             if args["model"] is not None:
                 md, mtag, mpar, manis = model_sig(args["model"], tags)
@@ -668,14 +752,21 @@ def run_probe_history(case):
     cfg = case["model"]
     dim = cfg["dim"]
     model = make_model(cfg)
-    srf = gs.SRF(model, generator="Fourier", period=list(unhex(case["period"])), mode_no=case["mode_no"], seed=case["seed"])
+    kept = []
+    if case.get("ctor_keep"):
+        kept += [np.array(fill(unhex(case["period"]), dim), dtype=float), np.array(fill(case["mode_no"], dim), dtype=np.int64)]
+        srf = gs.SRF(model, generator="Fourier", period=kept[0], mode_no=kept[1], seed=case["seed"])
+    else:
+        srf = gs.SRF(model, generator="Fourier", period=list(unhex(case["period"])), mode_no=case["mode_no"], seed=case["seed"])
     want = fill(case["mode_no"], dim)
+    want_period = np.array(fill(unhex(case["period"]), dim), dtype=float)      # last value ASSIGNED through the API
     worst, det = 0.0, None
     for step_no, op in enumerate([dict(op="start")] + case["ops"]):
         k = op["op"]
         try:
             if k == "period":
                 srf.generator.period = list(unhex(op["period"]))
+                want_period = np.array(fill(unhex(op["period"]), dim), dtype=float)
             elif k == "mode_no":
                 srf.generator.mode_no = list(op["mode_no"])
                 want = fill(op["mode_no"], dim)
@@ -696,26 +787,34 @@ def run_probe_history(case):
                 srf.generator.update(**kw)
                 if "mode_no" in op:
                     want = fill(op["mode_no"], dim)
+                if "period" in op:
+                    want_period = np.array(fill(unhex(op["period"]), dim), dtype=float)
             elif k == "seed":
                 srf.generator.update(seed=op["seed"])
-            elif k in API_OPS:
-                r = do_api_op(srf.generator, op)             # through srf.generator, as a user would
+            elif k in API_OPS or k in KEEP_OPS:
+                # through srf.generator, as a user would
+                r = do_api_op(srf.generator, op) if k in API_OPS else do_keep_op(srf.generator, op, kept)
                 if r["mode_no"] is not None:
                     want = fill(r["mode_no"], dim)
+                if r["period"] is not None:
+                    want_period = np.array(fill(r["period"], dim), dtype=float)
         except ValueError:
             # a rejected operation (odd mode_no, nothing given): post-exception states are outside the property
             return worst, det
         gen = srf.generator
-        # periodicity with the period the generator REPORTS
+        # periodicity with the period last ASSIGNED through the API, which the generator must also REPORT
         pts = [unhex(p) for p in case["pts"]]
-        pts = [p * np.asarray(gen.period, dtype=float)[d] for d, p in enumerate(pts)]
-        w, d_ = periodic_check(srf, pts, range(dim), case["qs"])
+        pts = [p * want_period[d] for d, p in enumerate(pts)]
+        w, d_ = periodic_check(srf, pts, range(dim), case["qs"], period=want_period)
         have = [int(x) for x in gen.mode_no]
         if have != want:
             w, d_ = float("inf"), dict(mode_no_requested=want, mode_no_stored=have)
-        # the grid must be the one of a freshly built generator with the reported settings and the field's model
+        if not np.array_equal(np.asarray(gen.period, dtype=float), want_period):
+            w, d_ = float("inf"), dict(d_ or {}, period_not_assigned=True, reported_period=hexl(gen.period),
+                                        assigned_period=hexl(want_period))
+        # the grid must be the one of a freshly built generator with (copies of) the assigned settings and the field's model
         from gstools.field.generator import Fourier
-        fresh = Fourier(srf.model, period=np.array(gen.period, dtype=float), mode_no=[int(x) for x in gen.mode_no], seed=1)
+        fresh = Fourier(srf.model, period=[float(x) for x in want_period], mode_no=[int(x) for x in want], seed=1)
         if not (near(fresh._delta_k, gen._delta_k) and np.shape(fresh._modes) == np.shape(gen._modes)
                 and near(fresh._modes, gen._modes)):
             w, d_ = float("inf"), dict(d_ or {}, stale_grid=True, reported_period=hexl(gen.period), reported_mode_no=have,
@@ -753,7 +852,7 @@ def probe_histories(ctx, rng):
             tagk = "arange-hostile"
         pts = [rng.uniform(-2.0, 2.0, 4) for _ in range(dim)]        # in units of the current period
         case = dict(kind="history_probe", model=cfg, period=hexl(period), mode_no=mode_no, seed=int(rng.integers(0, 2 ** 31)),
-                    ops=ops, pts=[hexl(p) for p in pts], qs=[1, -2])
+                    ops=ops, pts=[hexl(p) for p in pts], qs=[1, -2], ctor_keep=bool(rng.random() < 0.5))
         ctx.count(("hprobe", tagk, dim, tuple(o["op"] for o in ops)), hist=dict(op="probe:history:" + tagk, dim=dim))
         ctx.sample(dict(kind="history_probe", dim=dim, ops=[o["op"] for o in ops]), limit=8)
         try:
@@ -764,9 +863,13 @@ def probe_histories(ctx, rng):
             continue
         worst_seen = max(worst_seen, worst if np.isfinite(worst) else 0.0)
         if worst > 1.0:
-            kind = "mode-count" if det and "mode_no_stored" in det else ("stale-grid" if det and det.get("stale_grid") else "not-periodic")
+            kind = "mode-count" if det and "mode_no_stored" in det else ("period-not-assigned" if det and det.get("period_not_assigned") else
+                                                                            "stale-grid" if det and det.get("stale_grid") else "not-periodic")
             ctx.violation("probe: periodicity after an update history (%s)" % tagk,
-                          "after %s the field is not periodic with the current settings: %s" % (det.get("op"), json.dumps(det)),
+                          ("after %s the generator reports a period that was never assigned through the API (it follows an array "
+                           "the caller edited in place): %s" if kind == "period-not-assigned" else
+                           "after %s the grid is not the one of a fresh generator with the assigned settings: %s" if kind == "stale-grid" else
+                           "after %s the field is not periodic with the current settings: %s") % (det.get("op"), json.dumps(det)),
                           dict(case, detail=det), key="probe:history:%s:%s" % (tagk, kind))
     ctx.notes.append("cases skipped because model.spectrum was negative/non-finite: %d" % SKIPPED[0])
     ctx.notes.append("history probes: worst |f(x+p)-f(x)| / (1e-9*AMP) = %.3g" % worst_seen)
